@@ -145,7 +145,19 @@ def strategy(tier):
             'off_ns': st.lists(st.sampled_from([0, 1, 2, 3]), max_size=3,
                                unique=True),
             'frames': st.lists(frame if ser == 'default' else mp,
-                               min_size=1, max_size=n),
+                               min_size=1, max_size=n) if ser == 'default'
+            else st.one_of(
+                st.lists(mp, min_size=1, max_size=n),
+                st.lists(mp, min_size=1, max_size=n),
+                # the offender first asks for the namespace literally named
+                # '*' (the catch-all key of the handler registry) and then
+                # sends events there that name a bystander
+                st.lists(mp, min_size=0, max_size=n - 3).map(lambda l: [
+                    {'k': 'mp', 'v': {'type': 0, 'nsp': '*'}},
+                    {'k': 'mp', 'v': {'type': 2, 'nsp': '*',
+                                      'data': ['b', '§B0§', 'x']}},
+                    {'k': 'mp', 'v': {'type': 2, 'nsp': '*', 'id': 1,
+                                      'data': ['zz', '§B1§']}}] + l)),
             # afterwards the offender stops answering pings: engine.io
             # notices inside the next send to it and closes it from there
             'silent': st.booleans(),
